@@ -5,6 +5,7 @@ import (
 	"crypto/x509"
 	"encoding/base64"
 	"fmt"
+	"strings"
 
 	"github.com/beevik/etree"
 )
@@ -67,6 +68,17 @@ func (e RSA) Encrypt(certificate interface{}, plaintext []byte, nonce []byte) (*
 		dm.CreateAttr("Algorithm", e.DigestMethod.Algorithm())
 		dm.CreateAttr("xmlns:ds", "http://www.w3.org/2000/09/xmldsig#")
 	}
+	if e.algorithm == oaep11Algorithm {
+		// without an MGF element a recipient must assume MGF1 with SHA-1, but the
+		// key is wrapped using MGF1 with the digest method's hash.
+		mgfAlgorithm, ok := mgf1Algorithm(e.DigestMethod)
+		if !ok {
+			return nil, ErrAlgorithmNotImplemented("MGF1 with " + e.DigestMethod.Algorithm())
+		}
+		mgf := encryptionMethodEl.CreateElement("xenc11:MGF")
+		mgf.CreateAttr("Algorithm", mgfAlgorithm)
+		mgf.CreateAttr("xmlns:xenc11", "http://www.w3.org/2009/xmlenc11#")
+	}
 	{
 		innerKeyInfoEl := encryptedKey.CreateElement("ds:KeyInfo")
 		x509data := innerKeyInfoEl.CreateElement("ds:X509Data")
@@ -118,7 +130,34 @@ func (e RSA) Decrypt(key interface{}, ciphertextEl *etree.Element) ([]byte, erro
 		}
 	}
 
+	if e.algorithm == oaep11Algorithm {
+		// the mask generation function defaults to MGF1 with SHA-1. crypto/rsa computes
+		// MGF1 with the same hash as the digest method, so only that combination works.
+		mgfAlgorithm := "http://www.w3.org/2009/xmlenc11#mgf1sha1"
+		if mgfEl := ciphertextEl.FindElement("./EncryptionMethod/MGF"); mgfEl != nil {
+			mgfAlgorithm = mgfEl.SelectAttrValue("Algorithm", "")
+		}
+		if expected, ok := mgf1Algorithm(e.DigestMethod); !ok || expected != mgfAlgorithm {
+			return nil, ErrAlgorithmNotImplemented(mgfAlgorithm)
+		}
+	}
+
 	return e.keyDecrypter(e, rsaKey, ciphertext)
+}
+
+const oaep11Algorithm = "http://www.w3.org/2009/xmlenc11#rsa-oaep"
+
+// mgf1Algorithm returns the xenc11:MGF identifier of MGF1 with the hash of dm.
+func mgf1Algorithm(dm DigestMethod) (string, bool) {
+	if dm == nil {
+		return "", false
+	}
+	name := dm.Algorithm()[strings.LastIndex(dm.Algorithm(), "#")+1:]
+	switch name {
+	case "sha1", "sha224", "sha256", "sha384", "sha512":
+		return "http://www.w3.org/2009/xmlenc11#mgf1" + name, true
+	}
+	return "", false
 }
 
 // OAEP returns a version of RSA that implements RSA in OAEP-MGF1P mode. By default
